@@ -36,5 +36,25 @@ def dataAt (b : PBody S) (f p n : Nat) : List S := ((b.data.getD f []).getD p []
 def confAt [Inhabited S] (b : PBody S) (f p n : Nat) : S := ((b.conf.getD f []).getD p []).getD n default
 def missAt (b : PBody S) (f p n : Nat) : List Bool := ((b.missing.getD f []).getD p []).getD n []
 
+/-! ## `reduce_holistic`: a selection by name tables -/
+
+/-- Python's `needle in hay` for strings (as lists of code points) -/
+def isInfix (needle : List Char) : List Char → Bool
+  | [] => needle.isPrefixOf []
+  | c :: cs => needle.isPrefixOf (c :: cs) || isInfix needle cs
+
+/-- the body points `reduce_holistic` keeps: those in which none of the ignore names occurs -/
+def reduceKeep (ignore : List String) (points : List String) : List String :=
+  points.filter fun p => ignore.all fun i => !isInfix i.toList p.toList
+
+/-- `utils.generic.reduce_holistic` on a Holistic header (`detect_known_pose_format` said "holistic"): ONE call of `get_components` — every component but the
+    world landmarks, the face reduced to the contour points, the body to the points that are not face / finger / foot points. `none` = the call raises
+    (no POSE_LANDMARKS component: `IndexError`; a contour point the face component lacks: `ValueError`). -/
+def reduceHolistic (ignore contours : List String) (comps : List Comp) : Option (List Comp × List Nat) := do
+  let body ← comps.find? (·.name == "POSE_LANDMARKS")
+  let names := (comps.filter (·.name != "POSE_WORLD_LANDMARKS")).map (·.name)
+  getComponents comps names (some [("FACE_LANDMARKS", contours), ("POSE_LANDMARKS", reduceKeep ignore body.points)])
+
+
 end PoseVerif
 
